@@ -114,6 +114,13 @@ def forge_v3(spec, key, counter, inner, seed):
         ct = _rb(seed, n)
         hdr = codec.v3_header((n - 2 + 32) & 0xFFFF, spec.get("pad", 0), codec.T_ENCRYPTED_RESPONSE)
         return hdr + ct + _rb(seed + 2, 32)
+    if k == "v3_valid_tag_plain":
+        # the peer knows the session key: a correctly tagged packet around an arbitrary (short) plaintext
+        n = spec["n"]                       # plaintext bytes, multiple of 16 (0 = empty ciphertext)
+        plain2 = _rb(seed + 3, n)
+        hdr = codec.v3_header((n - 2 + 32) & 0xFFFF if n else 30, spec.get("pad", 0), spec.get("type", codec.T_ENCRYPTED_RESPONSE))
+        ct = codec.cbc_encrypt(key, plain2) if n else b""
+        return hdr + ct + hashlib.sha256(hdr + plain2).digest()
     if k == "v3_magic":
         p = bytearray(codec.v3_encode_encrypted(key, counter, inner, codec.T_ENCRYPTED_RESPONSE))
         p[4] = spec["value"]
